@@ -523,3 +523,31 @@ func ControlledBy(in ssa.Instruction, ifi *ssa.If, branch bool) bool {
 
 // PathItoa exposes itoa.
 func PathItoa(i int) string { return itoa(i) }
+
+// AddrUses lists the instructions using address v, looking through pointer type changes
+// ((*int32)(&x.flag) for a flag of a named integer type).
+func AddrUses(v ssa.Value) []ssa.Instruction {
+	var out []ssa.Instruction
+	var walk func(x ssa.Value, d int)
+	walk = func(x ssa.Value, d int) {
+		if x.Referrers() == nil || d > 4 {
+			return
+		}
+		for _, ref := range *x.Referrers() {
+			switch y := ref.(type) {
+			case *ssa.ChangeType:
+				walk(y, d+1)
+			case *ssa.Convert:
+				if _, isPtr := y.Type().Underlying().(*types.Pointer); isPtr {
+					walk(y, d+1)
+				} else {
+					out = append(out, ref)
+				}
+			default:
+				out = append(out, ref)
+			}
+		}
+	}
+	walk(v, 0)
+	return out
+}
